@@ -67,12 +67,12 @@ spec fn count_at(rep: Replication, cores: Seq<int>, h: int, before: int) -> int 
     }
 }
 // replicas assigned to hosts < h  == global id of replica 0 of host h
-spec fn assigned(rep: Replication, cores: Seq<int>, h: int) -> int
+spec fn sp_assigned(rep: Replication, cores: Seq<int>, h: int) -> int
     decreases h
 {
-    if h <= 0 { 0 } else { assigned(rep, cores, h - 1) + count_at(rep, cores, h - 1, assigned(rep, cores, h - 1)) }
+    if h <= 0 { 0 } else { sp_assigned(rep, cores, h - 1) + count_at(rep, cores, h - 1, sp_assigned(rep, cores, h - 1)) }
 }
-spec fn count(rep: Replication, cores: Seq<int>, h: int) -> int { count_at(rep, cores, h, assigned(rep, cores, h)) }
+spec fn count(rep: Replication, cores: Seq<int>, h: int) -> int { count_at(rep, cores, h, sp_assigned(rep, cores, h)) }
 spec fn cores_of(c: RemoteConfig) -> Seq<int> { Seq::new(c.hosts@.len(), |i: int| c.hosts@[i].num_cores as int) }
 spec fn total(cores: Seq<int>, h: int) -> int decreases h { if h <= 0 { 0 } else { total(cores, h - 1) + cores[h - 1] } }
 proof fn lemma_total_mono(cores: Seq<int>, a: int, b: int)
@@ -90,17 +90,17 @@ proof fn lemma_count_bound(rep: Replication, cores: Seq<int>, h: int)
 }
 proof fn lemma_assigned_bound(rep: Replication, cores: Seq<int>, h: int)
     requires 0 <= h <= cores.len(), forall|i: int| 0 <= i < cores.len() ==> #[trigger] cores[i] >= 0,
-    ensures 0 <= assigned(rep, cores, h) <= total(cores, h) + h, total(cores, h) >= 0,
-            rep matches Replication::Limited(n) ==> assigned(rep, cores, h) <= n,
+    ensures 0 <= sp_assigned(rep, cores, h) <= total(cores, h) + h, total(cores, h) >= 0,
+            rep matches Replication::Limited(n) ==> sp_assigned(rep, cores, h) <= n,
     decreases h
 {
     if h > 0 { lemma_assigned_bound(rep, cores, h - 1); }
 }
 spec fn mk(block_id: BlockId, h: int, r: int) -> Coord { Coord { block_id, host_id: h as u64, replica_id: r as u64 } }
-// the placement table a block must get: host h holds replicas 0..count(h), replica r of host h has global id assigned(h) + r
+// the placement table a block must get: host h holds replicas 0..count(h), replica r of host h has global id sp_assigned(h) + r
 spec fn placed_maps(ids: Map<Coord, CoordUInt>, reps: Map<HostId, Seq<Coord>>, block_id: BlockId, rep: Replication, cores: Seq<int>, upto: int) -> bool {
     &&& forall|h: int, r: int| 0 <= h < upto && 0 <= r < count(rep, cores, h) ==>
-            ids.contains_key(#[trigger] mk(block_id, h, r)) && ids[mk(block_id, h, r)] == assigned(rep, cores, h) + r        // contiguous ids in host order
+            ids.contains_key(#[trigger] mk(block_id, h, r)) && ids[mk(block_id, h, r)] == sp_assigned(rep, cores, h) + r        // contiguous ids in host order
     &&& forall|h: int| 0 <= h < upto ==> #[trigger] reps.contains_key(h as u64)
     &&& forall|h: int| 0 <= h < upto ==> (#[trigger] reps[h as u64]).len() == count(rep, cores, h)
             && (forall|r: int| 0 <= r < count(rep, cores, h) ==> reps[h as u64][r] == mk(block_id, h, r))
@@ -137,6 +137,7 @@ def build(x):
     cn = x.method(FN, 'Coord', 'new'); cn.name_result('r')
     cn.add_spec("        ensures r.block_id == block_id && r.host_id == host_id && r.replica_id == replica_id, // #obl:coord.new")
     f = x.method(F, 'Scheduler', 'remote_block_info')
+    f.bind('n', r'add_replicas!\(host_id\.try_into\(\)\.unwrap\(\), host_info, (?!host_info)([A-Za-z_]\w*)\)')
     f.expand_local_macro('add_replicas')
     f.sub('V-LOG', r'log::debug!\((?:[^()]|\((?:[^()]|\([^()]*\))*\))*\);', '', detail='log statement inside the macro body dropped')
     f.sub('V-SUBST', r'fn remote_block_info<OperatorChain>\(\s*&self,\s*block: &Block<OperatorChain>,', 'fn remote_block_info(&self, block: &Block,', detail='generic Block<OperatorChain> -> field model Block', flags=re.S, must=True)
@@ -147,7 +148,7 @@ def build(x):
     f.sub('V-ITER', r'for \(host_id, host_info\) in remote\.hosts\.iter\(\)\.enumerate\(\) \{', 'let mut __h: usize = 0; while __h < remote.hosts.len() { let host_id = __h; let host_info = &remote.hosts[__h]; __h += 1;', detail='`for (i, x) in v.iter().enumerate() {` -> while loop with index', must=True)
     # the running counter is referred to only if the function still has one (a change that removes it must still be judged)
     has_gc = re.search(r'\bglobal_counter\b', f.text) is not None
-    gc = lambda t: (t.replace('GC_INNER', 'global_counter == base + replica_id,').replace('GC_OUTER', 'global_counter == assigned(rep, cores, __h as int),').replace('GC_AFTER', 'assert(global_counter == assigned(rep, cores, hh + 1));')
+    gc = lambda t: (t.replace('GC_INNER', 'global_counter == base + replica_id,').replace('GC_OUTER', 'global_counter == sp_assigned(rep, cores, __h as int),').replace('GC_AFTER', 'assert(global_counter == sp_assigned(rep, cores, hh + 1));')
                     if has_gc else t.replace('GC_INNER', '').replace('GC_OUTER', '').replace('GC_AFTER', ''))
     f.name_result('r')
     f.add_spec(SPEC)
@@ -176,13 +177,13 @@ def build(x):
 """
     OUTER = gc(OUTER); INNER = gc(INNER); 
     f.add_loop_spec(1, OUTER.replace('REPCOND', 'rep is Unlimited'))
-    f.add_loop_spec(3, OUTER.replace('REPCOND', 'rep matches Replication::Limited(n0) && remaining as int == n0 as int - assigned(rep, cores, __h as int)'))
+    f.add_loop_spec(3, OUTER.replace('REPCOND', 'rep matches Replication::Limited(n0) && remaining as int == n0 as int - sp_assigned(rep, cores, __h as int)'))
     f.add_loop_spec(5, OUTER.replace('REPCOND', 'rep is Host'))
-    for nth, (nexpr, hexpr) in enumerate([('host_info.num_cores', '__h as int - 1'), ('n', '__h as int - 1'), ('1', '__h as int - 1'), ('1', '0')], start=1):
+    for nth, (nexpr, hexpr) in enumerate([('host_info.num_cores', '__h as int - 1'), ('@{n}', '__h as int - 1'), ('1', '__h as int - 1'), ('1', '0')], start=1):
         f.insert_before('let host_replicas = replicas.entry_or_default(', '''let ghost ids0 = global_ids@;
                 let ghost reps0 = replicas@;
                 let ghost hh: int = (%s) as int;
-                let ghost base: int = assigned(rep, cores, hh);
+                let ghost base: int = sp_assigned(rep, cores, hh);
                 let ghost nn: int = (%s) as int;
                 proof {
                     lemma_assigned_bound(rep, cores, hh); lemma_assigned_bound(rep, cores, hh + 1);
@@ -191,7 +192,7 @@ def build(x):
                     assert(cores[hh] == remote.hosts@[hh].num_cores);
                     assert(nn == count(rep, cores, hh));
                     assert(!reps0.contains_key(hh as u64));
-                    assert(base + nn == assigned(rep, cores, hh + 1));
+                    assert(base + nn == sp_assigned(rep, cores, hh + 1));
                     assert(base + nn < 0x4000_0001_0000_0002);
                     assert(0 <= hh < 0x1_0000_0000);
                 }
@@ -212,7 +213,7 @@ def build(x):
                     assert forall|k: HostId| #[trigger] reps1.contains_key(k) implies k < hh + 1 by { if k != hh as u64 { assert(reps0.contains_key(k)); } }
                     let ids1 = global_ids@;
                     assert forall|h: int, r: int| 0 <= h < hh + 1 && 0 <= r < count(rep, cores, h) implies
-                        ids1.contains_key(#[trigger] mk(block.id, h, r)) && ids1[mk(block.id, h, r)] == assigned(rep, cores, h) + r by {
+                        ids1.contains_key(#[trigger] mk(block.id, h, r)) && ids1[mk(block.id, h, r)] == sp_assigned(rep, cores, h) + r by {
                         if h < hh { assert(ids0.contains_key(mk(block.id, h, r))); }
                     }
                     assert forall|c: Coord| #[trigger] ids1.contains_key(c) implies c.block_id == block.id && 0 <= c.host_id < hh + 1
@@ -224,6 +225,6 @@ def build(x):
                 }'''
     for ordinal in [7, 6, 4, 2]:
         f.insert_after_loop(ordinal, gc(AFTER))
-    for ordinal, endx, hosteq in [(2, 'host_info.num_cores', 'host_id as int == hh'), (4, 'n', 'host_id as int == hh'), (6, '1u64', 'host_id as int == hh'), (7, '1u64', 'hh == 0')]:
+    for ordinal, endx, hosteq in [(2, 'host_info.num_cores', 'host_id as int == hh'), (4, '@{n}', 'host_id as int == hh'), (6, '1u64', 'host_id as int == hh'), (7, '1u64', 'hh == 0')]:
         f.add_loop_spec(ordinal, INNER.replace('ENDEXPR', endx).replace('HOSTEQ', hosteq))
     return [PRELUDE, rep, c, "impl Coord {", cn, "}", "impl Scheduler {", f, "}"]
